@@ -2241,7 +2241,7 @@ impl fmt::Display for ForXml {
             ForXml::Raw(root) => {
                 write!(f, "RAW")?;
                 if let Some(root) = root {
-                    write!(f, "('{}')", root)?;
+                    write!(f, "('{}')", value::escape_single_quote_string(root))?;
                 }
                 Ok(())
             }
@@ -2250,7 +2250,7 @@ impl fmt::Display for ForXml {
             ForXml::Path(root) => {
                 write!(f, "PATH")?;
                 if let Some(root) = root {
-                    write!(f, "('{}')", root)?;
+                    write!(f, "('{}')", value::escape_single_quote_string(root))?;
                 }
                 Ok(())
             }
